@@ -47,7 +47,7 @@ class C18(Check):
                    'running: struct/member agreement is read under the module\'s access lock)',
                    'closest allowed value: ties may go either way']
     PROBES = ('c18.struct-op', 'c18.floatenum-op', 'c18.limit-op', 'c18.inverted-limits', 'c18.control-op',
-              'c18.driver-op', 'c18.wire-op', 'c18.takeover', 'c18.concurrent-driver-assignment', 'fault.hw-read', 'fault.hw-write', 'c18.stale-controller-output', 'c18.second-output-op')
+              'c18.driver-op', 'c18.wire-op', 'c18.takeover', 'c18.concurrent-driver-assignment', 'fault.hw-read', 'fault.hw-write', 'c18.stale-controller-output', 'c18.second-output-op', 'c18.concurrent-takeover')
 
     def gen_case(self, rng, tier):
         members = rng.sample(['a', 'b', 'c'], rng.choice([2, 3]))
@@ -56,7 +56,8 @@ class C18(Check):
                  'members': members, 'struct_rw': rng.random() < 0.5, 'labels': labels,
                  'limits': rng.choice(['min', 'max', 'minmax', 'limits']), 'nctl': rng.choice([1, 2, 3]),
                  'poll': rng.random() < 0.5, 'split': rng.random() < 0.4, 'second_output': rng.random() < 0.5,
-                 'fe_hw_max': rng.randrange(len(labels)) if rng.random() < 0.4 else None}
+                 'fe_hw_max': rng.randrange(len(labels)) if rng.random() < 0.4 else None,
+                 'switch_time': rng.choice([0, 0, 0.05, 0.25])}
         ops = []
         for _ in range(rng.randrange(3, 26 if tier == 'thorough' else 18)):
             who = rng.choice(['wire', 'wire', 'driver'])
@@ -82,9 +83,15 @@ class C18(Check):
                     op['lo'], op['hi'] = max(op['lo'], op['hi']) + 1, min(op['lo'], op['hi'])
                 op['which'] = rng.choice(['min', 'max'])
             else:
-                op = {'group': 'control', 'kind': rng.choice(['ctl', 'ctl', 'out', 'stale', 'ctlb', 'outb']),
+                op = {'group': 'control', 'kind': rng.choice(['ctl', 'ctl', 'out', 'stale', 'ctlb', 'outb', 'ctlpair']),
                       'c': rng.randrange(shape['nctl']),
                       'v': round(rng.random() * 100, 1)}
+                if op['kind'] == 'ctlpair':
+                    # two clients hand the control to two different controllers at the same moment
+                    op['c2'] = (op['c'] + 1 + rng.randrange(max(1, shape['nctl'] - 1))) % shape['nctl']
+                    op['v2'] = round(rng.random() * 100, 1)
+                    if shape['nctl'] < 2:
+                        op['kind'] = 'ctl'
             op['who'] = who
             if op['group'] in ('struct', 'fe') and rng.random() < 0.3:
                 # at the same time a driver thread publishes a change of its own by assignment
@@ -194,6 +201,12 @@ class C18(Check):
                 self.activate_control()
                 self.output_module.update_target(self.name, value)
                 return value
+
+            def set_control_active(self, active):
+                # the hook for switching the control loop of the hardware: that takes a moment
+                if shape.get('switch_time'):
+                    time.sleep(shape['switch_time'])
+                super().set_control_active(active)
         ctx['cleanup'] = [lambda: env.forget_classes(LMod, Out, Ctl)]
         cfg = {'m': {'cls': LMod, 'description': 'linked parameters', 'pollinterval': 0.5, 'slowinterval': 0.5},
                'out': {'cls': Out, 'description': 'output'}}
@@ -350,6 +363,21 @@ class C18(Check):
                         name = f'ctl{op["c"] % shape["nctl"]}'
                         sim.count('c18.stale-controller-output', 'c18.second-output-op')
                         out.update_target(name, op['v'])
+                    elif k == 'ctlpair':
+                        sim.count('c18.concurrent-takeover')
+                        n1, n2 = f'ctl{op["c"] % shape["nctl"]}', f'ctl{op["c2"] % shape["nctl"]}'
+                        cl2 = nodeworld.RawClient(world)
+                        r2 = []
+
+                        def other():
+                            r = cl2.request(f'change {n2}:target {json.dumps(op["v2"])}', timeout=60)
+                            r2.append(None if r is None else r[2].raw.decode('latin-1')[:200])
+                        th2 = threading.Thread(target=other, name='client2')
+                        th2.start()
+                        reply = wire(f'change {n1}:target {json.dumps(op["v"])}')
+                        th2.join()
+                        cl2.close()
+                        reply = f'{reply} || {r2[0] if r2 else None}'
                     elif k == 'ctl':
                         name = f'ctl{op["c"] % shape["nctl"]}'
                         if who == 'wire':
@@ -489,6 +517,15 @@ class C18(Check):
                     res.append(Violation('C18.controlled-by-mismatch', 'other-output-disturbed',
                                          f'{what}: an operation on the second output changed the control state of the '
                                          f'first one from {b["active"]}/{b["controlled_by"]} to {a["active"]}/{a["controlled_by"]}'))
+                    return res
+            elif op['group'] == 'control' and op['kind'] == 'ctlpair':
+                # whoever came last is in control - exactly one of the two (the rules above), and the output has its value
+                winners = [(op['c'] % shape['nctl'], op['v']), (op['c2'] % shape['nctl'], op['v2'])]
+                if 'error_' not in (s['reply'] or '') and not any(a['active'][i] and abs(a['out_target'] - v) < 1e-9 for i, v in winners):
+                    res.append(Violation('C18.takeover-failed', 'concurrent',
+                                         f'{what}: after two concurrent hand-overs to ctl{winners[0][0]} and ctl{winners[1][0]} '
+                                         f'control_active = {a["active"]}, controlled_by = {a["controlled_by"]}, output target '
+                                         f'{a["out_target"]} (requested {winners})'))
                     return res
             elif op['group'] == 'control' and accepted:
                 if op['kind'] == 'ctl':
